@@ -1,7 +1,8 @@
 (* GenEq/SrcC12.v — C12 restated about FixedBuf::read_frame and copy_once_from as REGENERATED from /repo's current source:
    for ANY reader (no contract assumed: it may lie, scribble, fail or panic). *)
-From FB Require Import Sem.Base Sem.Lemmas Model.Fb Spec.Api Facets.Fb Facets.Fb2 Facets.Rf Facets.C12.
+From FB Require Import Sem.Base Sem.Lemmas Model.Fb Spec.Api Facets.Fb Facets.Fb2 Facets.Rf Facets.RfInv Facets.C12.
 From FB Require Gen.FbGen GenEq.Fb_read_frame GenEq.Fb_copy_once_from.
+From FB Require Import GenEq.RfSource.
 Open Scope Z_scope.
 
 (* a buffered complete frame, or buffered data the deframer rejects, is answered on the first pass of the loop that is in the tree
@@ -46,6 +47,26 @@ Proof.
   exact (copy_once_commit SIZE chk R s rs d' n rs' HI Hw Hr Hn).
 Qed.
 
+(* every destination the read_frame that is in the tree now offers a reader is non-empty and no larger than the buffer's free space
+   (SIZE - len at the start of the call); for readers whose counts are within what they were offered *)
+Lemma log_reader_sane {RS} (R : Reader RS) : sane R -> sane (log_reader R).
+Proof.
+  intros H [rs log] dest d' n [rs' log'] E. cbn [rd log_reader fst snd] in E.
+  destruct (rd R rs dest) as [a rs1] eqn:Er. inversion E; subst. exact (H rs dest d' n _ Er).
+Qed.
+Theorem c12_caps_source : forall SIZE chk RS (R : Reader RS) df,
+  (forall u, zlen u <= SIZE -> df_in_bounds df u) -> sane R ->
+  forall fuel len0 s rs log, Inv SIZE s -> len0 <= len_ s ->
+  match FbGen.read_frame SIZE chk (log_reader R) fuel df (s, (rs, log)) with
+  | Val _ (_, (_, log')) | Panic (_, (_, log')) => caps_ok SIZE len0 log log'
+  end.
+Proof.
+  intros SIZE chk RS R df Hdf HR fuel len0 s rs log HI Hl.
+  rewrite (read_frame_source_eq SIZE chk _ (log_reader R) df (log_reader_sane R HR) Hdf fuel (s, (rs, log)) HI).
+  apply (caps_in_range SIZE chk R df Hdf); [|exact HI|exact Hl].
+  intros rs0 dest d' n rs' E. exact (proj1 (HR rs0 dest d' n rs' E)).
+Qed.
+
 Print Assumptions c12_no_call_when_decided_source.
 Print Assumptions c12_copy_once_source.
-Definition gen_eq := (c12_no_call_when_decided_source, c12_copy_once_source, c12_copy_once_commit_source).
+Definition gen_eq := (c12_no_call_when_decided_source, c12_caps_source, c12_copy_once_source, c12_copy_once_commit_source).
